@@ -924,6 +924,8 @@ type replicateChannelHandler struct {
 	collectionRecords map[int64]*model.TargetCollectionInfo   // key is suorce collection id
 	collectionNames   map[string]*model.HandlerCollectionInfo // key is collection name, value is the source brief collection info
 	closeStreamFuncs  map[int64]io.Closer
+	// key: source milvus collectionID value: the seek position (checkpoint) the collection has been started with
+	collectionSeekPositions map[int64]*msgstream.MsgPosition
 
 	forwardPackChan  chan *api.ReplicateMsg
 	generatePackChan chan *api.ReplicateMsg
@@ -971,6 +973,10 @@ func (r *replicateChannelHandler) AddCollection(taskID string, sourceInfo *model
 		PChannel:     sourceInfo.PChannel,
 	}
 	r.closeStreamFuncs[collectionID] = closeStreamFunc
+	if r.collectionSeekPositions == nil {
+		r.collectionSeekPositions = make(map[int64]*msgstream.MsgPosition)
+	}
+	r.collectionSeekPositions[collectionID] = sourceInfo.SeekPosition
 	go func() {
 		log.Info("start to handle the msg pack", zap.String("channel_name", sourceInfo.VChannel))
 		for {
@@ -1056,6 +1062,7 @@ func (r *replicateChannelHandler) RemoveCollection(collectionID int64) {
 		return
 	}
 	delete(r.collectionRecords, collectionID)
+	delete(r.collectionSeekPositions, collectionID)
 	if collectionRecord != nil {
 		delete(r.collectionNames, collectionRecord.CollectionName)
 	}
@@ -1102,6 +1109,7 @@ func (r *replicateChannelHandler) AddPartitionInfo(taskID string, collectionInfo
 	}
 	targetInfo.PartitionBarrierChan[partitionID] = model.NewOnceWriteChan(barrierChan)
 	sourcePChannel := r.collectionNames[collectionName].PChannel
+	collectionSeekPosition := r.collectionSeekPositions[collectionID]
 	partitionLog.Info("add partition info done")
 	r.recordLock.Unlock()
 
@@ -1111,7 +1119,12 @@ func (r *replicateChannelHandler) AddPartitionInfo(taskID string, collectionInfo
 		partitionLog.Info("the partition is dropped")
 		replicatePool.Submit(func() (struct{}, error) {
 			partitionLog.Info("generate msg for dropped partition")
-			generatePosition := r.sourceSeekPosition
+			// use the checkpoint of the collection itself, the handler's seek position belongs to
+			// the collection which created the handler and may be empty
+			generatePosition := collectionSeekPosition
+			if generatePosition == nil {
+				generatePosition = r.sourceSeekPosition
+			}
 			if generatePosition == nil || generatePosition.Timestamp == 0 {
 				partitionLog.Warn("drop partition, but seek timestamp is 0")
 				return struct{}{}, nil
